@@ -554,3 +554,17 @@ def mixed_wiring_specs():
             teams[ctor_team]["wire"] = "ctor"
             out.append({"tasks": tasks, "links": [], "teams": teams, "label": "mixed-wiring:%s:%d" % (wv, ctor_team)})
     return out
+
+
+def float_order_specs():
+    """a worker whose three non-dyadic skills add up to 0.6 or 0.6000000000000001 depending on the order of addition (entered T2, T1, T0;
+    alphabetical order is the other one), competing with a worker whose total is exactly 0.6; solo workers, so the order decides"""
+    out = []
+    for wrule in ("SSP", "MW"):
+        for first in (0, 1):
+            tasks = [{"name": "T0", "work": 1.2, "wrule": wrule}, {"name": "T1", "work": 0.4, "wrule": wrule}, {"name": "T2", "work": 0.9, "wrule": wrule}]
+            wa = {"name": "W0", "skills": {"T2": 0.3, "T1": 0.2, "T0": 0.1}, "solo": True, "cost": 1.0}
+            wb = {"name": "W1", "skills": {"T0": 0.6}, "solo": True, "cost": 2.0}
+            ws = [wa, wb] if first == 0 else [wb, wa]
+            out.append({"tasks": tasks, "links": [[0, 1, "FS"]], "teams": [{"name": "TM0", "targets": [0, 1, 2], "workers": ws}], "label": "float-order:%s:%d" % (wrule, first)})
+    return out
